@@ -6,16 +6,17 @@ package PKGNAME
 // program itself are symbolic / exhaustively chosen.
 
 import (
+	otlplogs "go.opentelemetry.io/collector/pdata/internal/data/protogen/logs/v1"
 	"go.opentelemetry.io/collector/pdata/pcommon"
 )
 
-type vc07Slice struct {
+type vc07lSlice struct {
 	s    LogRecordSlice
 	m    []uint64 // reference model: tags in order
 	tail string   // state of the backing array beyond len: "clean" | "nil-tail" | "stale-tail"
 }
 
-func vc07Check(vs []*vc07Slice, when string) {
+func vc07lCheck(vs []*vc07lSlice, when string) {
 	seen := map[*[]byte]bool{}
 	_ = seen
 	type obj = interface{}
@@ -38,7 +39,7 @@ func vc07Check(vs []*vc07Slice, when string) {
 	}
 }
 
-func vc07Guard(label string, f func()) (ok bool) {
+func vc07lGuard(label string, f func()) (ok bool) {
 	defer func() {
 		if r := recover(); r != nil {
 			vAssert(false, label)
@@ -51,7 +52,7 @@ func vc07Guard(label string, f func()) (ok bool) {
 
 func VerifC07LogRecordSlice() {
 	K := vParam("K")
-	vs := []*vc07Slice{
+	vs := []*vc07lSlice{
 		{s: NewLogRecordSlice(), tail: "clean"},
 		{s: NewLogRecordSlice(), tail: "clean"},
 		{s: NewLogRecordSlice(), tail: "clean"},
@@ -68,35 +69,35 @@ func VerifC07LogRecordSlice() {
 		vs[1].m = append(vs[1].m, t)
 	}
 	for step := 0; step < K; step++ {
-		op := vChoice("op", 6)
+		op := vChoice("op", 7)
 		x := vs[vChoice("x", 3)]
 		switch op {
 		case 0: // AppendEmpty
 			t := vNondetUint64("tag")
-			if !vc07Guard("append/no-panic/"+x.tail, func() { x.s.AppendEmpty().SetTimestamp(pcommon.Timestamp(t)) }) {
+			if !vc07lGuard("append/no-panic/"+x.tail, func() { x.s.AppendEmpty().SetTimestamp(pcommon.Timestamp(t)) }) {
 				return
 			}
 			x.m = append(x.m, t)
 			if x.tail == "nil-tail" && cap(*x.s.orig) == len(*x.s.orig) {
 				x.tail = "clean"
 			}
-			vc07Check(vs, "append/"+x.tail)
+			vc07lCheck(vs, "append/"+x.tail)
 		case 1: // EnsureCapacity
 			n := len(x.m) + 1 + vChoice("extra", 2)
 			grew := n > cap(*x.s.orig)
-			if !vc07Guard("ensurecapacity/no-panic", func() { x.s.EnsureCapacity(n) }) {
+			if !vc07lGuard("ensurecapacity/no-panic", func() { x.s.EnsureCapacity(n) }) {
 				return
 			}
 			vAssert(cap(*x.s.orig) >= n, "ensurecapacity/capacity")
 			if grew {
 				x.tail = "nil-tail"
 			}
-			vc07Check(vs, "ensurecapacity")
+			vc07lCheck(vs, "ensurecapacity")
 		case 2: // RemoveIf with an arbitrary predicate
 			var keep []uint64
 			i := 0
 			removed := false
-			if !vc07Guard("removeif/no-panic/"+x.tail, func() {
+			if !vc07lGuard("removeif/no-panic/"+x.tail, func() {
 				x.s.RemoveIf(func(lr LogRecord) bool {
 					rm := vNondetBool("remove")
 					if !rm {
@@ -115,13 +116,13 @@ func VerifC07LogRecordSlice() {
 			if removed {
 				x.tail = "stale-tail"
 			}
-			vc07Check(vs, "removeif")
+			vc07lCheck(vs, "removeif")
 		case 3: // MoveAndAppendTo
 			y := vs[vChoice("y", 3)]
 			if x == y {
 				vAssume(false)
 			}
-			if !vc07Guard("moveandappend/no-panic/"+y.tail, func() { x.s.MoveAndAppendTo(y.s) }) {
+			if !vc07lGuard("moveandappend/no-panic/"+y.tail, func() { x.s.MoveAndAppendTo(y.s) }) {
 				return
 			}
 			y.m = append(y.m, x.m...)
@@ -133,31 +134,61 @@ func VerifC07LogRecordSlice() {
 				}
 			}
 			x.tail = "clean"
-			vc07Check(vs, "moveandappend")
+			vc07lCheck(vs, "moveandappend")
 		case 4: // CopyTo
 			y := vs[vChoice("y", 3)]
 			if x == y {
 				vAssume(false)
 			}
 			lbl := "copyto/dest-" + y.tail
-			if !vc07Guard(lbl+"/no-panic", func() { x.s.CopyTo(y.s) }) {
+			if !vc07lGuard(lbl+"/no-panic", func() { x.s.CopyTo(y.s) }) {
 				return
 			}
 			y.m = append([]uint64(nil), x.m...)
-			vc07Check(vs, lbl)
+			vc07lCheck(vs, lbl)
 			// independence: mutate every source element, destination must not change (and vice versa)
 			for i := 0; i < x.s.Len(); i++ {
 				t := vNondetUint64("tag")
 				x.s.At(i).SetTimestamp(pcommon.Timestamp(t))
 				x.m[i] = t
 			}
-			vc07Check(vs, lbl+"/independent-after-source-mutation")
+			vc07lCheck(vs, lbl+"/independent-after-source-mutation")
 			for i := 0; i < y.s.Len(); i++ {
 				t := vNondetUint64("tag")
 				y.s.At(i).SetTimestamp(pcommon.Timestamp(t))
 				y.m[i] = t
 			}
-			vc07Check(vs, lbl+"/independent-after-dest-mutation")
+			vc07lCheck(vs, lbl+"/independent-after-dest-mutation")
+		case 6: // Sort by tag: a permutation of the same element objects, in order
+			if len(x.m) < 2 {
+				vAssume(false)
+			}
+			before := append([]*otlplogs.LogRecord(nil), (*x.s.orig)...)
+			if !vc07lGuard("sort/no-panic", func() {
+				x.s.Sort(func(a, b LogRecord) bool { return a.Timestamp() < b.Timestamp() })
+			}) {
+				return
+			}
+			vAssert(x.s.Len() == len(before), "sort/length-unchanged")
+			if x.s.Len() != len(before) {
+				return
+			}
+			for i := range before {
+				n := 0
+				for j := 0; j < x.s.Len(); j++ {
+					if (*x.s.orig)[j] == before[i] {
+						n++
+					}
+				}
+				vAssert(n == 1, "sort/every-element-object-kept-exactly-once")
+			}
+			for i := 0; i+1 < x.s.Len(); i++ {
+				vAssert(uint64(x.s.At(i).Timestamp()) <= uint64(x.s.At(i+1).Timestamp()), "sort/elements-in-order")
+			}
+			for i := 0; i < x.s.Len(); i++ {
+				x.m[i] = uint64(x.s.At(i).Timestamp())
+			}
+			vc07lCheck(vs, "sort")
 		case 5: // mutate one element
 			if len(x.m) == 0 {
 				vAssume(false)
@@ -166,7 +197,7 @@ func VerifC07LogRecordSlice() {
 			t := vNondetUint64("tag")
 			x.s.At(i).SetTimestamp(pcommon.Timestamp(t))
 			x.m[i] = t
-			vc07Check(vs, "mutate")
+			vc07lCheck(vs, "mutate")
 		}
 	}
 	vReach("end")
